@@ -367,7 +367,9 @@ func (g *gen) xexpr(d int) *xn {
 			op = 27
 		}
 		if g.r.Intn(80) == 0 {
-			op = g.r.Intn(34)
+			// any operator, but the word operators: printed as unary operators they are glued to the operand
+			for op = g.r.Intn(34); op == 20 || op == 21 || op == 25 || op == 26; op = g.r.Intn(34) {
+			}
 		}
 		return &xn{K: "U", P: g.xparens(), Op: op, X: g.xexpr(d - 1)}
 	case 7, 8, 9, 10, 11, 12:
